@@ -25,8 +25,8 @@ type c13Config struct {
 var c13Configs = []c13Config{{2, 2}, {3, 2}, {3, 3}, {4, 3}}
 
 var c13CtlFaults = []string{"pass", "lost", "error-reply", "duplicate"}
-var c13ContribFaults = []string{"pass", "lost", "error-reply", "share-random", "share-for-other-id", "commitment-altered", "vector-short", "vector-long", "duplicate"}
-var c13ReplyFaults = []string{"pass", "lost", "share-random", "share-for-other-id", "commitment-altered", "vector-short", "vector-long"}
+var c13ContribFaults = []string{"pass", "lost", "error-reply", "share-random", "share-for-other-id", "commitment-altered", "vector-short", "vector-long", "vector-empty", "share-zero", "duplicate"}
+var c13ReplyFaults = []string{"pass", "lost", "share-random", "share-for-other-id", "commitment-altered", "vector-short", "vector-long", "vector-empty", "share-zero"}
 
 // tamper applies a contribution fault; secret/vvec are for recipient `to`; ids are all participant ids.
 func c13Tamper(fault string, to uint64, ids []uint64, t int, secret *bls.SecretKey, vvec *[]bls.PublicKey) {
@@ -65,6 +65,10 @@ func c13Tamper(fault string, to uint64, ids []uint64, t int, secret *bls.SecretK
 		p := rig.NewPoly(t + 1)
 		*secret = p.Share(to)
 		*vvec = p.VVec
+	case "vector-empty":
+		*vvec = []bls.PublicKey{}
+	case "share-zero":
+		*secret = bls.SecretKey{}
 	}
 }
 
@@ -368,7 +372,7 @@ func C13(tier string) int {
 	run.Coverage = map[string]any{
 		"evaluations":         execs,
 		"distinct_nontrivial": len(outcomes),
-		"rule":                fmt.Sprintf("for (n,t) in {(2,2),(3,2),(3,3),(4,3)} every execution of a full generation on real instances with at most %d faults, where every prepare and execute message (lost, error reply, duplicate), every contribution request (lost, error reply, random share, contribution made for another identifier, altered commitment, vector one entry short, vector one entry long with a consistent share, duplicate) and every contribution reply (lost, random share, other identifier, altered commitment, short, long) is a choice point; run in worker processes so that a crash is observed; oracle: after a rejecting fault the client gets an error and no instance holds the account; duplicates are all-or-nothing; no worker dies; distinct = (config, outcome) pairs", bound),
+		"rule":                fmt.Sprintf("for (n,t) in {(2,2),(3,2),(3,3),(4,3)} every execution of a full generation on real instances with at most %d faults, where every prepare and execute message (lost, error reply, duplicate), every contribution request (lost, error reply, random share, contribution made for another identifier, altered commitment, vector one entry short, vector one entry long with a consistent share, vector with no entries, all-zero share, duplicate) and every contribution reply (lost, random share, other identifier, altered commitment, short, long, empty, zero share) is a choice point; run in worker processes so that a crash is observed; oracle: after a rejecting fault the client gets an error and no instance holds the account; duplicates are all-or-nothing; no worker dies; distinct = (config, outcome) pairs", bound),
 		"samples":             samples.List(),
 		"exhaustive":          true,
 		"deviation_bound":     bound,
